@@ -120,11 +120,11 @@ def misplacements(cfg):
                 if na == 1:
                     c['mws'][i][ph]['params'] = [['request', 'req']]
                 yield ('next-%s:mw.%s' % ('missing' if na is None else 'second', ph), c)
-            for role in ('req', 'def'):
+            for role in ('req', 'def', 'kwreq', 'kwdef'):
                 c = copy.deepcopy(cfg)
                 c['mws'][i][ph]['params'] = [['context', role]]
                 yield ('context-%s:mw.%s' % (role, ph), c)
-    for role in ('req', 'def'):
+    for role in ('req', 'def', 'kwreq', 'kwdef'):
         c = copy.deepcopy(cfg)
         c['endpoint']['params'] = [['next', role]]
         yield ('next-%s:endpoint' % role, c)
